@@ -1,4 +1,3 @@
-import Ntrip.Guards.Apps
 import Ntrip.Properties.C11
 import Ntrip.Generated.Consts
 /-!
@@ -70,27 +69,7 @@ theorem logger_terminates (blocks : List Bytes) {s s'} (h : Reach (loggerCfg blo
 theorem not_waiting_truncates_record : ∃ s, Reach C11.badCfg s ∧ s.mainReturned = true ∧ s.handled 0 ≠ C11.badCfg.out :=
   C11.not_waiting_loses_output
 
-/-- Tie T1: the skeleton of `start`, `readAndWrite`, `recorder`. -/
-theorem tie_skeletons :
-    Gen.skeleton_logger_start = some ["makechan cap=0", "makechan cap=0", "go func{", "defer close recorderDone", "}",
-      "close recorderChannel", "recv recorderDone"] ∧
-    Gen.skeleton_logger_readAndWrite = some ["for", "send recorderChannel"] ∧
-    Gen.skeleton_logger_recorder = some ["return", "return", "for", "recv recorderChannel"] ∧
-    Gen.logger_bufferLength = 8096 := by
-  repeat' constructor
-  all_goals decide
-
 /-! Non-vacuity (tests). -/
 example : copyLoop [[1, 2], [], [3]] = ([1, 2, 3], [[1, 2], [3]]) := by decide
-
-/-- Tie T1: what `readAndWrite` hands over — stdout gets the block just read; the recorder gets a
-    freshly made slice filled by `copy` (a private copy: the model's hand-over is by value, so the
-    read buffer must not be shared with the recorder goroutine). -/
-theorem tie_handover :
-    Gen.sent_logger_readAndWrite = some ["os.Stdout.Write(readBuffer[:n])",
-      "recorderChannel <- copyBuffer ; copyBuffer := make() ; copy(copyBuffer, readBuffer[:n])"] := by decide
-
-/-- Tie T1 (guards): the conditions and loops of `start`, `readAndWrite`, `recorder`, `writeRTCMLog`. -/
-theorem tie_guards_logger : type_of% Ntrip.Guards.logger := Ntrip.Guards.logger
 
 end Ntrip.C16
